@@ -14,25 +14,25 @@ package nsqadmin
 
 //@ func (s *httpServer) nodesHandler(w http.ResponseWriter, req *http.Request, ps httprouter.Params) (interface{}, error)
 //@   props C18
-//@   requires validS(s) && req != nil
+//@   requires validS(s) && http_api.mServerReq(req)
 //@   ensures[error-is-502] result1 != nil ==> iupstream502(result1) && result0 == nil
 //@   ensures[answer] result1 == nil ==> result0 != nil
 
 //@ func (s *httpServer) channelHandler(w http.ResponseWriter, req *http.Request, ps httprouter.Params) (interface{}, error)
 //@   props C18
-//@   requires validS(s) && req != nil
+//@   requires validS(s) && http_api.mServerReq(req)
 //@   ensures[error-is-502] result1 != nil ==> iupstream502(result1) && result0 == nil
 //@   ensures[answer] result1 == nil ==> result0 != nil
 
 //@ func (s *httpServer) topicsHandler(w http.ResponseWriter, req *http.Request, ps httprouter.Params) (interface{}, error)
 //@   props C18
-//@   requires validS(s) && req != nil
+//@   requires validS(s) && http_api.mServerReq(req)
 //@   ensures[error-is-502-or-400] result1 != nil ==> (iupstream502(result1) || (dyntype(result1) == typetag("http_api.Err") && unbox(result1, "http_api.Err").Code == 400)) && result0 == nil
 //@   ensures[answer] result1 == nil ==> result0 != nil
 
 //@ func (s *httpServer) topicHandler(w http.ResponseWriter, req *http.Request, ps httprouter.Params) (interface{}, error)
 //@   props C18
-//@   requires validS(s) && req != nil
+//@   requires validS(s) && http_api.mServerReq(req)
 //@   ensures[error-is-502] result1 != nil ==> iupstream502(result1) && result0 == nil
 //@   ensures[answer] result1 == nil ==> result0 != nil
 // ASSUMED (call protocol, not proved: the workers of GetNSQDStats run in goroutines the engine skips):
